@@ -104,6 +104,7 @@ class SymInputs:
         self.aro_opts = list(aro_opts)
         self._ar = {}
         self._fail = {}
+        self.skip_acyclic = False
 
     def ar_before(self):
         return shapesym.choose('aro', self.aro_opts)
@@ -211,6 +212,9 @@ def build_and_run(N, inp):
             raise HarnessError(f'C17 builder bug: {type(e).__name__}: {e}')
         obs.update(exc=(type(e).__name__, str(e)), build_failed=True, log=[], other_calls=0, ids=[None] * N, order=[],
                    submitted=[False] * N)
+        return obs
+    if getattr(inp, 'skip_acyclic', False) and kahn(N, parents_of(N, shape)) is not None:
+        obs['covered_elsewhere'] = True
         return obs
     _FSP.reset(inp, _STATE['root'])
     out = io.StringIO()
@@ -330,16 +334,19 @@ def _vars(N):
     return ev, sv
 
 
-def model_to_inputs(N, m, global_flavour=False):
+def model_to_inputs(N, m, global_flavour=False, kinds=(0, 1, 2, 3), aro_opts=(0, 1)):
+    """Solver model -> concrete input VALUES (the solver's integers are indices into the option lists)."""
     d = {}
     if global_flavour:
         d['fl'] = shapesym.model_int(m, z3.Int('fl'))
     ev, sv = _vars(N)
     for (i, j), x in ev.items():
-        d[f'e_{i}_{j}'] = shapesym.model_int(m, x)
+        k = shapesym.model_int(m, x)
+        d[f'e_{i}_{j}'] = kinds[k] if 0 <= k < len(kinds) else 0
     for j, x in sv.items():
         d[f's_{j}'] = shapesym.model_int(m, x)
-    d['aro'] = shapesym.model_int(m, z3.Int('aro'))
+    a = shapesym.model_int(m, z3.Int('aro'))
+    d['aro'] = aro_opts[a] if 0 <= a < len(aro_opts) else aro_opts[0]
     for j in range(N):
         d[f'fl_{j}'] = shapesym.model_int(m, z3.Int(f'fl_{j}'))
         d[f'ar_{j}'] = shapesym.model_bool(m, z3.Bool(f'ar_{j}'))
@@ -383,7 +390,7 @@ def explore_shard(args):
         cons.append(z3.Int(name) == val)
     if args.get('deadline_at') and time.time() > args['deadline_at']:
         return {'fix': args.get('fix', {}), 'paths': 0, 'cyclic_paths': 0, 'dag_paths': 0, 'queries': 0, 'twins_sat': 0,
-                'violations': [], 'unknown': 0, 'rejected_at_build': 0, 'rejection_example': None, 'samples': [],
+                'violations': [], 'unknown': 0, 'covered_elsewhere': 0, 'rejected_at_build': 0, 'rejection_example': None, 'samples': [],
                 'part_counts': {}, 'symbolic_parts': 0, 'complete': False, 'exhaustive': 'unknown', 'solver_calls': 0,
                 'forks': 0, 'secs': 0.0}
     ex = shapesym.Explorer(cons, max_paths=args.get('max_paths', 2000000),
@@ -392,10 +399,11 @@ def explore_shard(args):
     ar = [z3.Bool(f'ar_{j}') for j in range(N)]
     fail = [z3.Bool(f'fail_{j}') for j in range(N)]
     res = {'fix': args.get('fix', {}), 'paths': 0, 'cyclic_paths': 0, 'dag_paths': 0, 'queries': 0, 'twins_sat': 0,
-           'violations': [], 'unknown': 0, 'rejected_at_build': 0, 'rejection_example': None, 'samples': [], 'part_counts': {}, 'symbolic_parts': 0}
+           'violations': [], 'unknown': 0, 'covered_elsewhere': 0, 'rejected_at_build': 0, 'rejection_example': None, 'samples': [], 'part_counts': {}, 'symbolic_parts': 0}
 
     def body():
         inp = SymInputs(N, args['kinds'], args.get('aro', (0,)), args.get('global_flavour', False))
+        inp.skip_acyclic = bool(args.get('cyclic_only'))
         inputs_holder['inp'] = inp
         return build_and_run(N, inp)
 
@@ -404,6 +412,9 @@ def explore_shard(args):
             raise HarnessError(f'C17 harness: unexpected exception escaped the builder: {type(p.exc).__name__}: {p.exc}')
         obs = p.value
         res['paths'] += 1
+        if obs.get('covered_elsewhere'):
+            res['covered_elsewhere'] += 1
+            return
         v, parts = violation(N, obs, ar, fail)
         cyclic = 'cycle_rejected_before_anything_runs' in parts
         if 'rejected_at_build' in parts:
@@ -425,7 +436,7 @@ def explore_shard(args):
         r, m = query(v)
         res['queries'] += 1
         if r == 'sat':
-            d = model_to_inputs(N, m, args.get('global_flavour', False))
+            d = model_to_inputs(N, m, args.get('global_flavour', False), args['kinds'], list(args.get('aro', (0,))))
             bad = [k for k, f in parts.items() if not z3.is_true(m.eval(f, model_completion=True))]
             res['violations'].append({'inputs': d, 'parts': bad})
         elif r != 'unsat':
